@@ -1702,8 +1702,8 @@ pub fn vec_eq_family() -> Vec<Prog> {
 /// enum classes, methods with their own type parameters, tail-recursive methods; and bounded generic
 /// functions, methods and classes instantiated with *instantiated generic classes*.
 pub fn method_value_family() -> Vec<Prog> {
-  let prelude = "interface Show { method show(): Str }\nclass Box<T>(val v: T) : Show {\n  method get(): T = this.v\n  method show(): Str = \"box\"\n  method <R> pair(r: R): Pair2<T, R> = Pair2.init(this.v, r)\n  method count(i: int, acc: int): int = if i <= 0 { acc } else { this.count(i - 1, acc + 1) }\n}\nclass Pair2<A, B>(val a: A, val b: B) : Show {\n  method show(): Str = \"pair\"\n  method first(): A = this.a\n}\nclass Opt<T>(None, Some(T)) : Show {\n  method show(): Str = match this { None -> \"none\", Some(_) -> \"some\" }\n  method orElse(d: T): T = match this { None -> d, Some(t) -> t }\n}\nclass Counter(val step: int) : Show {\n  method show(): Str = \"counter\" :: Str.fromInt(this.step)\n  method count(i: int, acc: int): int = if i <= 0 { acc } else { this.count(i - 1, acc + this.step) }\n  method sumTo(other: Counter, i: int): int = if i <= 0 { this.step } else { other.sumTo(this, i - 1) }\n}\nclass Holder<T: Show>(val t: T) {\n  method describe(): Str = \"holder of \" :: this.t.show()\n  method <U: Show> both(u: U): Str = this.t.show() :: \"+\" :: u.show()\n}\nclass Util {\n  function <T: Show> describe(t: T): Str = \"it is \" :: t.show()\n  function <A: Show, B: Show> two(a: A, b: B): Str = a.show() :: \"&\" :: b.show()\n  function apply0(f: () -> int): int = f()\n  function apply2(f: (int, int) -> int): int = f(5, 0)\n}\n";
-  let cases: [(&str, &str); 22] = [
+  let prelude = "interface Show { method show(): Str }\nclass Box<T>(val v: T) : Show {\n  method get(): T = this.v\n  method show(): Str = \"box\"\n  method <R> pair(r: R): Pair2<T, R> = Pair2.init(this.v, r)\n  method count(i: int, acc: int): int = if i <= 0 { acc } else { this.count(i - 1, acc + 1) }\n  method <A> fold(start: A, f: (A, T) -> A): A = f(start, this.v)\n}\nclass Cap {\n  function <A> sameName(b: Box<A>, f: (A) -> int): int = b.fold(0, (acc, v) -> acc + f(v))\n  function <Z> otherName(b: Box<Z>, f: (Z) -> int): int = b.fold(0, (acc, v) -> acc + f(v))\n}\nclass CapBox<A>(val inner: Box<A>) {\n  method viaClassParameter(f: (A) -> int): int = this.inner.fold(100, (acc, v) -> acc + f(v))\n}\nclass Pair2<A, B>(val a: A, val b: B) : Show {\n  method show(): Str = \"pair\"\n  method first(): A = this.a\n}\nclass Opt<T>(None, Some(T)) : Show {\n  method show(): Str = match this { None -> \"none\", Some(_) -> \"some\" }\n  method orElse(d: T): T = match this { None -> d, Some(t) -> t }\n}\nclass Counter(val step: int) : Show {\n  method show(): Str = \"counter\" :: Str.fromInt(this.step)\n  method count(i: int, acc: int): int = if i <= 0 { acc } else { this.count(i - 1, acc + this.step) }\n  method sumTo(other: Counter, i: int): int = if i <= 0 { this.step } else { other.sumTo(this, i - 1) }\n}\nclass Holder<T: Show>(val t: T) {\n  method describe(): Str = \"holder of \" :: this.t.show()\n  method <U: Show> both(u: U): Str = this.t.show() :: \"+\" :: u.show()\n}\nclass Util {\n  function <T: Show> describe(t: T): Str = \"it is \" :: t.show()\n  function <A: Show, B: Show> two(a: A, b: B): Str = a.show() :: \"&\" :: b.show()\n  function apply0(f: () -> int): int = f()\n  function apply2(f: (int, int) -> int): int = f(5, 0)\n}\n";
+  let cases: [(&str, &str); 24] = [
     ("method of a generic struct class as a value", "let f = Box.init(41).get; Process.println(Str.fromInt(f() + 1));"),
     ("method of a generic struct class at Str as a value", "let f = Box.init(\"s\").get; Process.println(f());"),
     ("method of a generic class passed to a function", "Process.println(Str.fromInt(Util.apply0(Box.init(7).get)));"),
@@ -1726,6 +1726,8 @@ pub fn method_value_family() -> Vec<Prog> {
     ("class-level bound at an instantiated generic class", "Process.println(Holder.init(Box.init(1)).describe());"),
     ("method-level bound at an instantiated generic class", "Process.println(Holder.init(Counter.init(1)).both(Pair2.init(1, 2)) :: Holder.init(Opt.Some(1)).both(Box.init(2)));"),
     ("bounded generic function as a value at an instantiated generic class", "let f: (Box<int>) -> Str = Util.describe; Process.println(f(Box.init(1)));"),
+    ("generic method called from a generic function whose type parameter has the method's parameter name", "Process.println(Str.fromInt(Cap.sameName(Box.init(2), (x) -> x * 3) + Cap.otherName(Box.init(2), (x) -> x * 3)));"),
+    ("generic method called from a generic method of a class whose type parameter has the method's parameter name", "Process.println(Str.fromInt(CapBox.init(Box.init(5)).viaClassParameter((x) -> x + 1)));"),
   ];
   cases
     .iter()
@@ -1788,7 +1790,7 @@ pub fn target_names_family() -> Vec<Prog> {
     "arguments", "eval", "null", "undefined", "number", "any", "never", "static", "get", "set", "constructor",
     "prototype", "toString", "valueOf", "length", "hasOwnProperty", "name", "call", "apply", "bind",
     "local", "param", "func", "result", "loop", "block", "br", "i32", "ref", "struct", "array", "memory", "table", "global", "elem", "data", "start",
-    "init", "main", "_t1", "_t0", "_this", "_builtin", "tmp", "f", "g", "v0",
+    "init", "main", "_t1", "_t0", "_this", "_builtin", "tmp", "v0",
   ];
   // only names that are lower-case identifiers of the language and not keywords of it
   let samlang_keywords = [
@@ -1798,12 +1800,13 @@ pub fn target_names_family() -> Vec<Prog> {
   ];
   let mut out = vec![];
   for name in names {
-    if samlang_keywords.contains(&name) || name.starts_with('_') {
+    // (`init` as a member of a struct class collides with the generated constructor: ill-typed families)
+    if samlang_keywords.contains(&name) || name.starts_with('_') || name == "init" {
       continue;
     }
     let n = name;
     let text = format!(
-      "class Rec(val {n}: int, val other: int) {{\n  method {n}(k: int): int = this.{n} + k\n  function {n}Twice(k: int): int = k * 2\n}}\nclass Main {{\n  function deep({n}: int, acc: int): int = if {n} <= 0 {{ acc }} else {{ 1 + Main.deep({n} - 1, acc) }}\n  function tail({n}: int, acc: int): int = if {n} <= 0 {{ acc }} else {{ Main.tail({n} - 1, acc + {n}) }}\n  function locals(k: int): int = {{\n    let {n} = k + 1;\n    let f = ({n}2: int) -> {n}2 + {n};\n    let g = (x: int) -> {{ let {n}3 = x * 2; {n}3 + {n} }};\n    f(1) + g(2)\n  }}\n  function lam(k: int): int = {{\n    let h = ({n}: int) -> {n} * 3;\n    h(k)\n  }}\n  function pat(r: Rec): int = {{\n    let {{ {n}, other }} = r;\n    {n} * 10 + other\n  }}\n  function main(): unit = {{\n    let k = \"3\".toInt();\n    Process.println(Str.fromInt(Main.deep(k, 100)));\n    Process.println(Str.fromInt(Main.tail(k, 0)));\n    Process.println(Str.fromInt(Main.locals(k)));\n    Process.println(Str.fromInt(Main.lam(k)));\n    Process.println(Str.fromInt(Main.pat(Rec.init(k, 4))));\n    Process.println(Str.fromInt(Rec.init(k, 4).{n}(5) + Rec.{n}Twice(k)))\n  }}\n}}\n"
+      "class Rec(val {n}: int, val other: int) {{\n  function {n}Twice(k: int): int = k * 2\n}}\nclass Meth(val q: int) {{\n  method {n}(k: int): int = this.q + k\n}}\nclass Stat {{\n  function {n}(k: int, j: int): int = if k <= j {{ k - j }} else {{ 1 + Stat.{n}(k - 1, j) }}\n}}\nclass Main {{\n  function deep({n}: int, acc: int): int = if {n} <= 0 {{ acc }} else {{ 1 + Main.deep({n} - 1, acc) }}\n  function tail({n}: int, acc: int): int = if {n} <= 0 {{ acc }} else {{ Main.tail({n} - 1, acc + {n}) }}\n  function locals(k: int): int = {{\n    let {n} = k + 1;\n    let f = ({n}2: int) -> {n}2 + {n};\n    let g = (x: int) -> {{ let {n}3 = x * 2; {n}3 + {n} }};\n    f(1) + g(2)\n  }}\n  function lam(k: int): int = {{\n    let h = ({n}: int) -> {n} * 3;\n    h(k)\n  }}\n  function pat(r: Rec): int = {{\n    let {{ {n}, other }} = r;\n    {n} * 10 + other\n  }}\n  function main(): unit = {{\n    let k = \"3\".toInt();\n    Process.println(Str.fromInt(Main.deep(k, 100)));\n    Process.println(Str.fromInt(Main.tail(k, 0)));\n    Process.println(Str.fromInt(Main.locals(k)));\n    Process.println(Str.fromInt(Main.lam(k)));\n    Process.println(Str.fromInt(Main.pat(Rec.init(k, 4))));\n    Process.println(Str.fromInt(Meth.init(k).{n}(5) + Rec.{n}Twice(k) + Rec.init(k, 4).{n} + Stat.{n}(9, k)))\n  }}\n}}\n"
     );
     out.push(Prog { family: "target-names", shape: format!("identifier `{n}`"), name: format!("target name {n}"), text });
   }
